@@ -61,7 +61,9 @@ NoViolation == m.viol = <<>>
 
 \* the implementation model and the Standard agree on the encoding in use once decided
 \* (the item counters w.n / wc.n grow with the stream; only their difference, lag, is state)
-View == <<d, [m.w EXCEPT !.n = 0], [m.wc EXCEPT !.n = 0], m.avail, m.lag, m.pend, m.eos, m.done, m.desync, staged, eos>>
+\* a state with a recorded violation is never identified with one without (TLC evaluates invariants on new views only);
+\* the state after a queried call is kept apart so that one behaviour ending in it is exported for replay
+View == <<d, [m.w EXCEPT !.n = 0], [m.wc EXCEPT !.n = 0], m.avail, m.lag, m.pend, m.eos, m.done, m.desync, staged, eos, m.viol # <<>>, hist # <<>> /\ hist[Len(hist)].q>>
 
 \* export: one behaviour (shortest, BFS) per distinct reachable state, printed as the call history
 Export == hist = <<>> \/ PrintT(<<"HIST", ToJson([new |-> NewEv, calls |-> hist])>>)
